@@ -16,6 +16,14 @@
 #include "pls.h"
 #include <pthread.h>
 
+/* ---------------------------------------------------------------- the clock is an input too */
+/* an unseeded generator falls back to time(NULL): the harness owns that source of nondeterminism.  Every call returns
+ * a new value (time moves on), counted from a fixed origin that is reset with each run of a driver, so executions are
+ * reproducible while any dependence of a result on the clock shows up as a dependence on the schedule. */
+#include <time.h>
+static long CLOCK_TICKS;
+time_t __wrap_time(time_t *t) { time_t v = (time_t)(1700000000L + 7L * __atomic_fetch_add(&CLOCK_TICKS, 1, __ATOMIC_SEQ_CST)); if (t) *t = v; return v; }
+
 /* ---------------------------------------------------------------- RNG seams */
 void __real_srand_(uint32_t); double __real_rand_(void); int __real_randInt(int, int); double __real_randDouble(double, double);
 static uint64_t STREAM[VS_MAXT]; static long DRAWS[VS_MAXT];
@@ -65,6 +73,7 @@ static double reldiff(const result *a, const result *b) { if (a->rows != b->rows
 /* ---------------------------------------------------------------- drivers */
 static const char *LNAME[3] = {"PLS", "MLR", "LDA"};
 static result run_bootstrap(int learner, int nthreads, int iterations, int groups, int nobj, int fam) {
+  CLOCK_TICKS = 0;
   matrix *x, *y, *pred; MODELINPUT in = initModelInput();
   if (learner == 2) { x = mk(nobj, 1, fam, 0); for (int i = 0; i < nobj; i++) x->data[i][0] += (i % 2) ? 0.3 : -0.3; y = mk_labels(nobj, (nobj + 1) / 2); }
   else { x = mk(nobj, learner == 0 ? 2 : 1, fam, 0.5); y = mk_y(x, fam); }
@@ -89,6 +98,7 @@ static void *user_thread(void *p) {
   a->out = h; return NULL;
 }
 static void run_users(int w0, int w1, uint64_t out[2], int together) {
+  CLOCK_TICKS = 0;
   uarg a[2] = {{w0, 11u, 0}, {w1, 12u + (unsigned)w1, 0}}; pthread_t t[2];
   UX = mk(6, 2, 3, 0);
   if (together) { for (int i = 0; i < 2; i++) pthread_create(&t[i], NULL, user_thread, &a[i]); for (int i = 0; i < 2; i++) pthread_join(t[i], NULL); }
@@ -109,6 +119,7 @@ static result *reference(int learner, int nthreads, int iterations, int groups, 
 /* driver D: y-scrambling; its inner bootstrap validation hard-codes 4 workers x 100 iterations, the outer loop draws
  * the permutation from the caller's stream between the inner validations */
 static result run_yscrambling(int learner, int loo, int fam) {
+  CLOCK_TICKS = 0;
   matrix *x = mk(7, learner == 0 ? 2 : 1, fam, 0.5), *y = mk_y(x, fam), *cc; MODELINPUT in = initModelInput();
   in.mx = x; in.my = y; in.nlv = learner == 0 ? 1 : 0; in.xautoscaling = learner == 0 ? 1 : 0; in.yautoscaling = 0;
   ValidationArg va = initValidationArg(); va.vtype = loo ? LOO : BootstrapRGCV; va.rgcv_group = 3; va.rgcv_iterations = 4;
